@@ -7,13 +7,16 @@
        The observation of a concurrent run is not a function of the input; the "model" is the set of
        admissible observations (no race report, no crash, linearizable history): model_obs echoes the
        observation when it is admissible and is the canonical admissible prefix otherwise.
-       spec: race=0 and (lin=1 when a history was recorded). *)
+       spec: race=0 and (lin=1 when a history was recorded).  For the components whose sequential model
+       is available as an extracted Coq model (wlru: model/Wlru.v of C29; sem: model/Semaphore.v of C30)
+       the recorded history is searched for a linearization HERE as well, against the extracted model;
+       the case is admissible only if both searches agree that one exists. *)
 open Model
 open Conv
 open Drv
 
 let str_of_codes (l : n list) : string =
-  String.concat "" (List.map (fun c -> String.make 1 (Char.chr (Z.to_int (z_of_n c)))) l)
+  String.concat "" (List.map (fun c -> String.make 1 (Char.chr (ZA.to_int (z_of_n c)))) l)
 
 (* rows of the regenerated table: (type, method, exported, method_ok) *)
 let table = List.map (fun (((t, m), e), ok) -> (str_of_codes t, str_of_codes m, e, ok)) lock_table_x
@@ -37,6 +40,115 @@ let find_prefix p obs =
     let lp = String.length p in
     if acc = "" && String.length t >= lp && String.sub t 0 lp = p then String.sub t lp (String.length t - lp) else acc) "" obs
 
+(* ------------------------------------------------------------------ linearizability search against the
+   EXTRACTED sequential models (C29 weighted LRU, C30 semaphore arithmetic).  The history is in the
+   observation:  H i<t>:<op,args> ... r<t>:<result> ...  in real-time order. *)
+type hop = { ht : string; hinv : int; mutable hret : int; hop : string list; mutable hres : string }
+
+let split_char c s = String.split_on_char c s
+
+let parse_history (toks : string list) : hop array =
+  let ops = ref [] and pos = ref 0 in
+  List.iter (fun tok ->
+    incr pos;
+    match String.index_opt tok ':' with
+    | None -> ()
+    | Some i ->
+      let hd = String.sub tok 0 i and tl = String.sub tok (i + 1) (String.length tok - i - 1) in
+      let t = String.sub hd 1 (String.length hd - 1) in
+      if hd.[0] = 'i' then ops := { ht = t; hinv = !pos; hret = max_int; hop = split_char ',' tl; hres = "" } :: !ops
+      else (match List.find_opt (fun o -> o.ht = t && o.hret = max_int) !ops with
+            | Some o -> o.hret <- !pos; o.hres <- tl
+            | None -> ())) toks;
+  Array.of_list (List.rev !ops)
+
+(* Wing & Gong: pick any minimal operation (none of the remaining ones returned before it was invoked),
+   apply it to the model, compare the result; memoise (done set, model state). *)
+let linearizable (apply : 'st -> string list -> 'st * string) (st0 : 'st) (h : hop array) : bool =
+  let n = Array.length h in
+  let memo = Hashtbl.create 1024 in
+  let rec dfs (don : int) (st : 'st) : bool =
+    if don = (1 lsl n) - 1 then true
+    else if Hashtbl.mem memo (don, st) then false
+    else begin
+      let minret = ref max_int in
+      Array.iteri (fun i o -> if don land (1 lsl i) = 0 && o.hret < !minret then minret := o.hret) h;
+      let ok = ref false in
+      Array.iteri (fun i o ->
+        if not !ok && don land (1 lsl i) = 0 && o.hinv <= !minret then begin
+          let (st', r) = apply st o.hop in
+          if r = o.hres && dfs (don lor (1 lsl i)) st' then ok := true
+        end) h;
+      if not !ok then Hashtbl.add memo (don, st) ();
+      !ok
+    end in
+  n <= 30 && dfs 0 st0
+
+let key_n (k : string) : n = n_of_z (ZA.of_int (Char.code k.[0]))
+let key_s (k : n) : string = String.make 1 (Char.chr (ZA.to_int (z_of_n k)))
+let val_n (v : string) : n = n_of_z (ZA.of_string ("0x" ^ v))
+let val_s (v : n) : string = ZA.format "%x" (z_of_n v)
+let num (x : n) = tok_of_n x
+let b01 b = if b then "1" else "0"
+let optv = function None -> "nil" | Some v -> val_s v
+
+let lru_apply (c : (n, n) cache) (op : string list) : (n, n) cache * string =
+  let run o = let ((c', r), _) = lru_step c o in (c', r) in
+  match op with
+  | ["Add"; k; v; w] -> (match run (OAdd (key_n k, val_n v, n_of_tok w)) with (c', RCount n) -> (c', num n) | (c', _) -> (c', "?"))
+  | ["Get"; k] -> (match run (OGet (key_n k)) with (c', RVal v) -> (c', optv v) | (c', _) -> (c', "?"))
+  | ["Peek"; k] -> (match run (OPeek (key_n k)) with (c', RVal v) -> (c', optv v) | (c', _) -> (c', "?"))
+  | ["Contains"; k] -> (match run (OContains (key_n k)) with (c', RBool b) -> (c', b01 b) | (c', _) -> (c', "?"))
+  | ["ContainsOrAdd"; k; v; w] ->
+    (match run (OContainsOrAdd (key_n k, val_n v, n_of_tok w)) with (c', RFoundCount (b, n)) -> (c', b01 b ^ "," ^ num n) | (c', _) -> (c', "?"))
+  | ["PeekOrAdd"; k; v; w] ->
+    (match run (OPeekOrAdd (key_n k, val_n v, n_of_tok w)) with
+     | (c', RPrevCount (p, n)) -> (c', optv p ^ "," ^ b01 (p <> None) ^ "," ^ num n) | (c', _) -> (c', "?"))
+  | ["Remove"; k] -> (match run (ORemove (key_n k)) with (c', RBool b) -> (c', b01 b) | (c', _) -> (c', "?"))
+  | ["RemoveOldest"] -> (match run ORemoveOldest with (c', RKV (Some (k, v))) -> (c', key_s k ^ "=" ^ val_s v) | (c', _) -> (c', "nil"))
+  | ["GetOldest"] -> (match run OGetOldest with (c', RKV (Some (k, v))) -> (c', key_s k ^ "=" ^ val_s v) | (c', _) -> (c', "nil"))
+  | ["Keys"] -> (match run OKeys with (c', RKeys l) -> (c', "[" ^ String.concat ";" (List.map key_s l) ^ "]") | (c', _) -> (c', "?"))
+  | ["Len"] -> (c, num (lru_len c))
+  | ["Weight"] -> (c, num (lru_weight c))
+  | ["Total"] -> (c, num (lru_weight c) ^ "," ^ num (lru_len c))
+  | ["Resize"; mw; ms] -> (match run (OResize (n_of_tok mw, z_of_tok ms)) with (c', RCount n) -> (c', num n) | (c', _) -> (c', "diverge"))
+  | ["Purge"] -> (match run OPurge with (c', _) -> (c', "ok"))
+  | _ -> (c, "?")
+
+(* semaphore: (held, cap); Available wraps like the Go uint32/uint64 subtraction *)
+let two32 = ZA.shift_left ZA.one 32 and two64 = ZA.shift_left ZA.one 64
+let wrap m x = ZA.erem x m
+let sem_apply ((h, c) : metric * metric) (op : string list) : (metric * metric) * string =
+  match op with
+  | [o; n; s] ->
+    let w = { mnum = n_of_tok n; msize = n_of_tok s } in
+    (match o with
+     | "TryAcquire" | "Acquire0" -> (match sem_try h c w with Some h' -> ((h', c), "1") | None -> ((h, c), "0"))
+     | "Release" -> ((sem_release h c w, c), "ok")
+     | "Processing" -> ((h, c), num h.mnum ^ "," ^ num h.msize)
+     | "Available" ->
+       ((h, c), ZA.to_string (wrap two32 (ZA.sub (z_of_n c.mnum) (z_of_n h.mnum))) ^ "," ^
+                ZA.to_string (wrap two64 (ZA.sub (z_of_n c.msize) (z_of_n h.msize))))
+     | "Terminate" -> ((h, { mnum = N0; msize = N0 }), "ok")
+     | _ -> ((h, c), "?"))
+  | _ -> ((h, c), "?")
+
+let rec after_h = function [] -> [] | "H" :: r -> r | _ :: r -> after_h r
+
+(* Some b = verdict of the search against the extracted model; None = component without one here *)
+let extracted_lin (inp : string list) (obs : string list) : bool option =
+  match inp with
+  | ["LIN"; "wlru"; seed; _; _] ->
+    let sd = ZA.of_string seed in
+    let mw = ZA.add (ZA.of_int 6) (ZA.erem sd (ZA.of_int 5)) and ms = ZA.add (ZA.of_int 2) (ZA.erem sd (ZA.of_int 3)) in
+    (match lru_new (n_of_z mw) (z_of_zz ms) with
+     | Some c0 -> Some (linearizable lru_apply c0 (parse_history (after_h obs)))
+     | None -> None)
+  | ["LIN"; "sem"; _; _; _] ->
+    let m a b = { mnum = n_of_z (ZA.of_int a); msize = n_of_z (ZA.of_int b) } in
+    Some (linearizable sem_apply (m 0 0, m 5 50) (parse_history (after_h obs)))
+  | _ -> None
+
 let eval inp obs =
   match inp with
   | ["TABLE"; t] ->
@@ -54,7 +166,10 @@ let eval inp obs =
     let race = not (has_tok "race=0" obs) in
     let crash = has_tok "crash=1" obs || has_tok "hang=1" obs in
     let wants_lin = kind <> "STRESS" in
-    let lin_ok = (not wants_lin) || has_tok "lin=1" obs in
+    let lin_go = has_tok "lin=1" obs in
+    (* second opinion on the recorded history from the extracted C29 / C30 models *)
+    let lin_x = if crash then None else extracted_lin inp obs in
+    let lin_ok = (not wants_lin) || (lin_go && lin_x <> Some false) in
     let ok = (not race) && (not crash) && lin_ok in
     let ovl = find_prefix "ovl=" obs in
     { default_verdict with
@@ -63,7 +178,10 @@ let eval inp obs =
       nontrivial = (kind = "STRESS" || (ovl <> "" && ovl <> "0"));
       note = (if race then "data race reported by the race detector at " ^ find_prefix "at=" obs else "") ^
              (if crash then " crash/hang" else "") ^
-             (if not lin_ok then " history is not linearizable " ^ find_prefix "why=" obs else "") }
+             (if not lin_ok then " history is not linearizable " ^ find_prefix "why=" obs else "") ^
+             (match lin_x with
+              | Some b when b <> lin_go && wants_lin -> " (search against the extracted model says lin=" ^ b01 b ^ ", the harness says lin=" ^ b01 lin_go ^ ")"
+              | _ -> "") }
   | _ -> failwith "bad case"
 
 let () = run eval
